@@ -71,7 +71,7 @@ pub fn project_for(kinds: &[&str]) -> Project {
 }
 
 pub fn run(tier: Tier) -> i32 {
-    let rep = Reporter::new("C08", "L1", tier);
+    let rep = Reporter::new("C08", &engine_name("L1"), tier);
     let scratch = Scratch::new("c08");
     let keys_total = Mutex::new(0u64);
     let kinds: Vec<&str> = match tier {
